@@ -14,7 +14,8 @@
 //!   kind   = c ms g m h d s
 //!   arg    = i64:<dec> i32:<dec> u64:<dec> u32:<dec> f64:<bits> dur:<secs>.<nanos> vu64:<dec;…>
 //!            vf64:<bits;…> vdur:<s.n;…> incr decr  user:<s|ps|u|pu|f|pf>:<…>   (user = a harness type whose
-//!            To*Value impl returns the given MetricValue)
+//!            To*Value impl returns the given MetricValue)  usererr:einv | usererr:eio:<kind index>.<id>  (a harness
+//!            type whose To*Value impl returns that error)
 //!   ops    = comma list of t<hex>:<hex> | v<hex> | c<hex> | T<dec> | r<bits>
 //! observation (X): per call  <ret>,<emitted>,<handled>  joined by "|"
 //!   ret = ok:<hex of Metric::as_metric_str> | einv | eio:<kind index>.<payload id> | unit | panic
@@ -137,7 +138,32 @@ pub enum Arg {
     Incr,
     Decr,
     User(UserVal),
+    UserErr(UserErr),
 }
+
+/// A user-defined value type whose conversion FAILS: its To*Value impls return the error described here - an
+/// InvalidInput error of the user's own (None) or an I/O error of the given kind carrying a payload id (built like the
+/// scripted sink's refusals, so that it is reported as eio:<kind index>.<id>).
+#[derive(Clone, Debug)]
+pub struct UserErr(pub Option<(usize, u64)>);
+impl UserErr {
+    fn error(&self) -> MetricError {
+        match self.0 {
+            None => MetricError::from((ErrorKind::InvalidInput, "the user's conversion says no")),
+            Some((k, id)) => MetricError::from(crate::util::refusal(IO_KINDS[k % IO_KINDS.len()], id)),
+        }
+    }
+}
+macro_rules! user_err_impl {
+    ($($tr:ident),*) => {$(
+        impl $tr for UserErr {
+            fn try_to_value(self) -> MetricResult<MetricValue> {
+                Err(self.error())
+            }
+        }
+    )*};
+}
+user_err_impl!(ToCounterValue, ToTimerValue, ToGaugeValue, ToMeterValue, ToHistogramValue, ToDistributionValue, ToSetValue);
 
 /// A user-defined value type: its To*Value impls return the wrapped MetricValue as is.
 #[derive(Clone, Debug)]
@@ -188,6 +214,12 @@ pub fn parse_arg(s: &str) -> Arg {
         "vu64" => Arg::VU64(list(v, |x| x.parse().unwrap())),
         "vf64" => Arg::VF64(list(v, f64_of_bits)),
         "vdur" => Arg::VDur(list(v, parse_dur)),
+        "usererr" => Arg::UserErr(UserErr(if v == "einv" {
+            None
+        } else {
+            let (k, id) = v.strip_prefix("eio:").expect("usererr").split_once('.').expect("usererr");
+            Some((k.parse().unwrap(), id.parse().unwrap()))
+        })),
         "user" => {
             let (var, w) = v.split_once(':').expect("user");
             Arg::User(UserVal(match var {
@@ -287,6 +319,7 @@ pub fn do_call(client: &StatsdClient, form: Form, kind: &str, arg: &Arg, key: &s
         ("c", Arg::U64(v)) => go!(count_with_tags, count, v),
         ("c", Arg::U32(v)) => go!(count_with_tags, count, v),
         ("c", Arg::User(v)) => go!(count_with_tags, count, v),
+        ("c", Arg::UserErr(v)) => go!(count_with_tags, count, v),
         ("c", Arg::Incr) => Some(match form {
             Form::Plain => ret_of(client.incr(key)),
             _ => finish(client.incr_with_tags(key), ops, form),
@@ -300,11 +333,14 @@ pub fn do_call(client: &StatsdClient, form: Form, kind: &str, arg: &Arg, key: &s
         ("ms", Arg::VU64(v)) => go!(time_with_tags, time, v),
         ("ms", Arg::VDur(v)) => go!(time_with_tags, time, v),
         ("ms", Arg::User(v)) => go!(time_with_tags, time, v),
+        ("ms", Arg::UserErr(v)) => go!(time_with_tags, time, v),
         ("g", Arg::U64(v)) => go!(gauge_with_tags, gauge, v),
         ("g", Arg::F64(v)) => go!(gauge_with_tags, gauge, v),
         ("g", Arg::User(v)) => go!(gauge_with_tags, gauge, v),
+        ("g", Arg::UserErr(v)) => go!(gauge_with_tags, gauge, v),
         ("m", Arg::U64(v)) => go!(meter_with_tags, meter, v),
         ("m", Arg::User(v)) => go!(meter_with_tags, meter, v),
+        ("m", Arg::UserErr(v)) => go!(meter_with_tags, meter, v),
         ("h", Arg::U64(v)) => go!(histogram_with_tags, histogram, v),
         ("h", Arg::F64(v)) => go!(histogram_with_tags, histogram, v),
         ("h", Arg::Dur(v)) => go!(histogram_with_tags, histogram, v),
@@ -312,13 +348,16 @@ pub fn do_call(client: &StatsdClient, form: Form, kind: &str, arg: &Arg, key: &s
         ("h", Arg::VF64(v)) => go!(histogram_with_tags, histogram, v),
         ("h", Arg::VDur(v)) => go!(histogram_with_tags, histogram, v),
         ("h", Arg::User(v)) => go!(histogram_with_tags, histogram, v),
+        ("h", Arg::UserErr(v)) => go!(histogram_with_tags, histogram, v),
         ("d", Arg::U64(v)) => go!(distribution_with_tags, distribution, v),
         ("d", Arg::F64(v)) => go!(distribution_with_tags, distribution, v),
         ("d", Arg::VU64(v)) => go!(distribution_with_tags, distribution, v),
         ("d", Arg::VF64(v)) => go!(distribution_with_tags, distribution, v),
         ("d", Arg::User(v)) => go!(distribution_with_tags, distribution, v),
+        ("d", Arg::UserErr(v)) => go!(distribution_with_tags, distribution, v),
         ("s", Arg::I64(v)) => go!(set_with_tags, set, v),
         ("s", Arg::User(v)) => go!(set_with_tags, set, v),
+        ("s", Arg::UserErr(v)) => go!(set_with_tags, set, v),
         _ => None,
     }
 }
